@@ -11,12 +11,13 @@ from vf import frames
 
 NUM = ["x", "z", "center(x)", "scale(z)", "standardize(x)", "bs(x, df=4)", "bs(z, df=5, degree=2, intercept=True)",
        "poly(x, 3)", "poly(x, 4)", "poly(z, 2, raw=True)", "np.log(p)", "I(x + z)", "{x * 2}", "scale(np.log(p))", "center(scale(z))",
-       "I(center(x) ** 2)", "ustat(z)", "np.abs(z)", "scale(x)", "I(scale(x) + z)", "np.add(center(z), x)", "bq"]
+       "I(center(x) ** 2)", "ustat(z)", "np.abs(z)", "scale(x)", "I(scale(x) + z)", "np.add(center(z), x)", "bq",
+       "bs(z, df=3, lower_bound=-1, upper_bound=1)"]  # boundary knots given by the user, narrower than the data
 NUM_POINTWISE = ["x", "z", "np.log(p)", "I(x + z)", "{x * 2}", "np.abs(z)", "I(x ** 2)"]
 CAT = ["f", "g", "h", "u", "v", "C(k)", "C(k, levels=lv)", "C(h)", "T(g, 'g1')", "S(g)", "S(f, 'a')", "C(g, Treatment('g3'))", "C(u, Sum)",
        "T(h)", "C(f, Sum('b'))", "C(bq)"]
 CAT_PLAIN = ["f", "g", "h", "u", "C(k)"]
-GRP = ["g", "f", "h", "C(k)", "g:f", "u", "u:h", "v"]
+GRP = ["g", "f", "h", "C(k)", "g:f", "u", "u:h", "v", "S(f)", "C(h, Sum)"]
 COLS = ("x", "z", "p", "f", "g", "h", "u", "k", "y", "s", "n", "v", "bq")
 _NAME = re.compile(r"\b(" + "|".join(COLS) + r")\b")
 
